@@ -38,6 +38,15 @@ def main():
         fails.append("ctx bookkeeping")
     if stable_hash((1, "a")) != stable_hash([1, "a"]):
         fails.append("stable hash canonicalisation")
+    # exhaustive branch-and-bound mGH oracle == plain enumeration of all maps, on every pair <= 4 vertices
+    import numpy as np
+
+    from oracles import mgh
+
+    gs = [g for k in (1, 2, 3, 4) for g in mgh.labelled_graphs(k, True)]
+    Ds = [mgh.bfs_dist(g).astype(np.int64) for g in gs]
+    if any(mgh.exact_double(a, b, bb=True) != mgh.exact_double(a, b, bb=False) for a in Ds[::2] for b in Ds[::3]):
+        fails.append("branch-and-bound mGH oracle disagrees with enumeration")
     for extra in ("selftest_extra",):
         try:
             mod = __import__("mc." + extra, fromlist=["x"])
